@@ -37,6 +37,9 @@ def run(ctx):
     res.rule("P3", "removed rows of rdp() and compute_removed_points() are [left, next_retained - left - 1]")
     res.rule("P4", "mapping and compute_removed_points never write into their arguments (alias analysis): the same table gives the same answer on every call")
     _pure(rc)
+    res.rule("P5", "every (reduced, removed) pair returned by rdp_fixed / grdp / mp_grdp / min_point_rdp belongs together: removed is computed for that very reduced")
+    from . import rdp_model as _rm
+    _rm.check_result_pairing(rc, "P5")
     fi = rc.func("rdp.mapping")
     mod = fi.module
     ev = rc.new_eval()
